@@ -97,6 +97,27 @@ IsKthNN(X, y, i, kk, a) ==
 KEff(kparam, d, nc) == LET k0 == IF kparam = 0 THEN (IF 7 < d - 1 THEN 7 ELSE d - 1) ELSE (IF kparam >= d THEN d - 1 ELSE kparam)
                        IN IF k0 < nc - 1 THEN k0 ELSE nc - 1
 
+(* NAMED DEVIATION (known finding D6): the implementation does not use each point's own k-th neighbour.   *)
+(* It partially sorts the class's squared-distance matrix column by column and then reads COLUMN kk, so   *)
+(* the scales of a class are a rearrangement of the squared distances to ONE point (the (kk+1)-th member  *)
+(* of the class in input order), with the kk-th smallest of them at position kk+1.                        *)
+OrderedMembers(y, c) == SeqOf(ClassOf(y, c))    \* any order; positions are resolved through SortedBy below
+RECURSIVE Sorted(_)
+Sorted(S) == IF S = {} THEN <<>> ELSE LET m == CHOOSE m \in S : \A x \in S : m <= x IN <<m>> \o Sorted(S \ {m})
+IsDeviationScale(X, y, kparam, a) ==
+  \A c \in {y[i] : i \in 1..Len(y)} :
+     LET I  == Sorted(ClassOf(y, c))                          \* members in input order
+         nc == Len(I)
+         kk == KEff(kparam, Len(X[1]), nc)
+         q  == I[kk + 1]
+         col == [t \in 1..nc |-> SqDist(X[I[t]], X[q])]
+         got == [t \in 1..nc |-> a[I[t]]]
+     IN /\ \A v \in {col[t] : t \in 1..nc} :
+              Cardinality({t \in 1..nc : col[t] = v}) = Cardinality({t \in 1..nc : got[t] = v})
+        /\ \A t \in 1..nc : \E u \in 1..nc : got[t] = col[u]
+        /\ Cardinality({t \in 1..nc : Lt(col[t], got[kk + 1])}) <= kk
+        /\ Cardinality({t \in 1..nc : Leq(col[t], got[kk + 1])}) >= kk + 1
+
 (* outer product of the difference of two points *)
 DiffOuter(x, y) == LET v == DM!VSub(x, y) IN DM!Outer(v, v)
 Classes(y) == {y[i] : i \in 1..Len(y)}
@@ -125,9 +146,13 @@ LfdaBetweenNP(X, y, A) ==
 
 (* the affinity witnesses describe the documented affinity: local scales are k-th neighbour distances,    *)
 (* s_ij = sqrt(a_i a_j), t_ij = d2_ij / s_ij, A_ij = exp(-t_ij) (tabulated: only range / zero rule checked) *)
-AffinityWitnessOK(X, y, kparam, a, s, t, A) ==
+ScaleOK(X, y, kparam, a, documented) ==
+  IF documented
+  THEN \A i \in 1..Len(X) : IsKthNN(X, y, i, KEff(kparam, Len(X[1]), Cardinality(ClassOf(y, y[i]))), a[i])
+  ELSE IsDeviationScale(X, y, kparam, a)
+AffinityWitnessOK(X, y, kparam, a, s, t, A, documented) ==
   LET n == Len(X)  d == Len(X[1]) IN
-  /\ \A i \in 1..n : IsKthNN(X, y, i, KEff(kparam, d, Cardinality(ClassOf(y, y[i]))), a[i])
+  /\ ScaleOK(X, y, kparam, a, documented)
   /\ \A i \in 1..n : \A j \in 1..n : (i < j /\ y[i] = y[j]) =>
         LET aa == Mul(a[i], a[j])  d2 == SqDist(X[i], X[j]) IN
         IF IsZero(aa) THEN IsZero(A[i][j])
